@@ -113,6 +113,7 @@ func (s *RelationshipPatternVisitor) EnterOC_RangeLiteral(ctx *parser.OC_RangeLi
 
 	// Start at the start state for the mini-parser below
 	state := stateStart
+	sawRange := false
 
 	for _, tokenLeaf := range ctx.GetChildren() {
 		switch typedTokenLeaf := tokenLeaf.(type) {
@@ -123,6 +124,7 @@ func (s *RelationshipPatternVisitor) EnterOC_RangeLiteral(ctx *parser.OC_RangeLi
 
 			case TokenTypeRange:
 				state = stateSecondIndex
+				sawRange = true
 
 			default:
 				s.ctx.AddErrors(fmt.Errorf("unexpected token in pattern range: %s", typedTokenLeaf.GetText()))
@@ -144,6 +146,12 @@ func (s *RelationshipPatternVisitor) EnterOC_RangeLiteral(ctx *parser.OC_RangeLi
 				}
 			}
 		}
+	}
+
+	// `*n` without `..` is an exact hop count: n..n
+	if !sawRange && s.RelationshipPattern.Range.StartIndex != nil {
+		exact := *s.RelationshipPattern.Range.StartIndex
+		s.RelationshipPattern.Range.EndIndex = &exact
 	}
 }
 
